@@ -16,13 +16,20 @@ import (
 
 type hElem = heapz.Element[int]
 
-// valuesField is the index of Heap's private `values []*Element[int]` field (-1: layout changed).
+// valuesField is the index of Heap's private backing array: the one field of type []*Element[int],
+// whatever it is called (-1: there is no such field, or more than one).
 var valuesField = func() int {
-	f, ok := reflect.TypeOf(heapz.Heap[int]{}).FieldByName("values")
-	if !ok || f.Type != reflect.TypeOf([]*hElem(nil)) || len(f.Index) != 1 {
-		return -1
+	t := reflect.TypeOf(heapz.Heap[int]{})
+	idx := -1
+	for i := 0; i < t.NumField(); i++ {
+		if t.Field(i).Type == reflect.TypeOf([]*hElem(nil)) {
+			if idx >= 0 {
+				return -1
+			}
+			idx = i
+		}
 	}
-	return f.Index[0]
+	return idx
 }()
 
 // backing returns a copy of the heap's private backing array (the handles in heap order).
